@@ -119,6 +119,30 @@ def matchAfterIdent (x : Str × Str) : Option RawCmp :=
 /-- the union of the two regexes -/
 def matchCmp (t : Str) : Option RawCmp := (matchIdent (dropWs t)).bind matchAfterIdent
 
+/-! ### the texts the recogniser stands for (used by the soundness/completeness theorems) -/
+
+def RawLit.text : RawLit → Str
+  | .num neg ip none => (if neg then ['-'] else []) ++ ip
+  | .num neg ip (some fp) => (if neg then ['-'] else []) ++ ip ++ '.' :: fp
+  | .str raw => '\'' :: raw ++ ['\'']
+
+def isDigits (s : Str) : Bool := !s.isEmpty && s.all isDigit
+
+def RawLit.wf : RawLit → Bool
+  | .num _ ip none => isDigits ip
+  | .num _ ip (some fp) => isDigits ip && isDigits fp
+  | .str raw => raw.all (fun c => c != '\'')
+
+def isIdent : Str → Bool
+  | [] => false
+  | c :: r => isIdentStart c && r.all isIdentChar
+
+def RawCmp.wf (r : RawCmp) : Bool := isIdent r.field && r.lit.wf
+
+/-- `field OP literal` with white space `w1 … w4` around the three tokens -/
+def RawCmp.render (r : RawCmp) (w1 w2 w3 w4 : Str) : Str :=
+  w1 ++ r.field ++ w2 ++ r.op.text ++ w3 ++ r.lit.text ++ w4
+
 /-! ### what the literal text denotes -/
 
 def digitVal (c : Char) : Nat := c.toNat - '0'.toNat
@@ -229,5 +253,22 @@ def newCond (t : Str) (compiled : Option Pred) : Option CondM :=
     { pred := p
       compound := (tryFastCompound t).map (fun x => (x.1, x.2.map RawCmp.denote))
       fast := if (tryFastCompound t).isSome then none else (tryFastCompare t).map RawCmp.denote })
+
+/-- `p₀ ++ sep ++ p₁ ++ sep ++ … ++ pₙ` -/
+def joinWith (sep : Str) : List Str → Str
+  | [] => []
+  | [p] => p
+  | p :: q :: ps => p ++ sep ++ joinWith sep (q :: ps)
+
+/-- the one thing about expr-lang's *parser* the theorems need (`C12.newCond_evaluate`): the
+shortcut recognised in the text denotes the predicate the compiled program evaluates. Evaluated by
+the driver on every generated case against the predicate the harness built the text from. -/
+def parseAgrees (t : Str) (p : Pred) : Bool :=
+  match tryFastCompound t with
+  | some (isAnd, rs) => decide (chainPred isAnd (rs.map RawCmp.denote) = some p)
+  | none =>
+    match tryFastCompare t with
+    | some r => decide (p = .cmp r.denote)
+    | none => true
 
 end Cond
